@@ -246,6 +246,54 @@ def _occupancy_method_ok(tov: ast.ClassDef) -> bool:
     return ok_placed and ok_new
 
 
+SOLVE_CALLS = {"schedulers/ilp_scheduler.py": ("ILPScheduler", "optimize"), "schedulers/tetrisched_gurobi_scheduler.py": ("TetriSchedGurobiScheduler", "optimize"),
+               "schedulers/tetrisched_cplex_scheduler.py": ("TetriSchedCPLEXScheduler", "solve")}
+
+
+def r9_model_built_when_work_is_offered(ctx: Context) -> None:
+    from .c06 import _canon_quantifiers
+    ctx.rule("C14.R9", "schedule() builds and solves the model whenever the offer is non-empty and holds a task that is not already "
+                       "SCHEDULED: every test controlling the solve call is implied by that condition (no offered task is silently "
+                       "left out of the optimisation)")
+    n = 0
+    for rel, (cname, solve) in SOLVE_CALLS.items():
+        fn = method(ctx.repo.mod(rel).cls(cname), "schedule")
+        g = cfgmod.build(fn)
+        calls = [c for c in calls_in(fn, solve) if isinstance(c.func, ast.Attribute)]
+        if not calls:
+            raise AnalysisError(f"{rel}: solve call `{solve}` not found in schedule()")
+        sn = g.node_of(calls[0])
+        for t in g.nodes:
+            if t.kind != "test":
+                continue
+            pol = "T" if g.edge_dominates(t, "T", sn) else ("F" if g.edge_dominates(t, "F", sn) else None)
+            if pol is None:
+                continue
+            # the offered list tested here
+            lists = {norm(x.args[0]) for x in ast.walk(t.ast) if isinstance(x, ast.Call) and call_name(x) == "len" and x.args}
+            lists |= {norm(gq.iter) for x in ast.walk(t.ast) if isinstance(x, (ast.GeneratorExp, ast.ListComp)) for gq in x.generators}
+            if not lists or not any("task" in l for l in lists):
+                continue
+            n += 1
+            lst = sorted(lists)[0]
+            f = lin.formula(_canon_quantifiers(t.ast))
+            f = f if pol == "T" else lin.f_not(f)
+            want_ast = ast.parse(f"len({lst}) >= 1 and not __Q__", mode="eval").body
+            from .c06 import _Rename
+            want_ast = _Rename("__Q__", f"ALL(_p.state == TaskState.SCHEDULED | {lst})").visit(want_ast)
+            want = lin.formula(want_ast)
+            try:
+                ok = lin.entails(want, f)
+            except ValueError:
+                ok = False
+            ctx.check(ok, "C14.R9", f"{rel}::{cname}.schedule|model solved whenever an unscheduled task is offered", loc(t.ast),
+                      f"guard `{norm(t.ast)[:70]}` is implied",
+                      f"the model is only built under `{norm(t.ast)[:120]}` ({'true' if pol == 'T' else 'false'} branch): an invocation that is "
+                      "offered a new task together with other tasks can skip the optimisation, so the returned plan leaves out a task that "
+                      "could be added")
+    ctx.floor("C14.R9", "offer-dependent guards of the solve call", n, 1)
+
+
 def run(ctx: Context) -> None:
     ctx.isolate(r1_gating_exact)
     ctx.isolate(r2_occupancy_not_wider)
@@ -255,3 +303,4 @@ def run(ctx: Context) -> None:
     ctx.isolate(r6_running_occupancy)
     ctx.isolate(c10.r5c_compat_on_cleared_worker, rule="C14.R7")
     ctx.isolate(c12.r1_admission, _alias={"C12.R1": "C14.R8"})
+    ctx.isolate(r9_model_built_when_work_is_offered)
